@@ -1,7 +1,7 @@
 (* Check/QueueCheck.v — correspondence check for Model/Queue.v.  The harness (harness/c10) writes the
    histories it ran against the real single.Sequencer / BatchQueue (badger in-memory under the recording
    datastore) with: what every call returned (error class / contents id), the final "batches" records in
-   key order, the recorded datastore writes, and the (contents id, key) table of the case.
+   key order and the recorded datastore writes (keys projected to their sequence number).
    [mismatches] lists the cases on which the model disagrees. *)
 From Coq Require Import NArith List Bool.
 From Verif Require Import Model.Queue.
@@ -36,21 +36,18 @@ Fixpoint list_eqb {A} (e : A -> A -> bool) (a b : list A) : bool :=
 
 Record qcase := {
   qc_max : N;                          (* maxQueueSize, 0 = unlimited *)
-  qc_hist : list item;
+  qc_hist : list uitem;
   qc_outs : list (option out);         (* what the code returned, per item (None for restart / crash) *)
-  qc_image : list entry;               (* final records under /batches, in key order: (key, contents id) *)
-  qc_log : list wr;                    (* recorded datastore writes, in order *)
-  qc_tbl : list (batch * key)          (* contents id -> key (48-bit prefix of the real SHA-256 key) *)
+  qc_image : list entry;               (* final records under /batches, in key order: (sequence number of the key, contents id) *)
+  qc_log : list wr                     (* recorded datastore writes, in order (keys as sequence numbers) *)
 }.
 
-(* 1 = results differ, 2 = final durable image differs, 3 = write log differs,
-   4 = the case is not content-hash keyed (harness error: outside the domain of the faithful model) *)
+(* 1 = results differ, 2 = final durable image differs, 3 = write log differs *)
 Definition check_case (c : qcase) : list N :=
-  let '(st, outs) := run (qc_max c) st0 (qc_hist c) in
+  let '(rst, outs) := r_run (qc_max c) r_st0 (qc_hist c) in
   (if list_eqb oout_eqb outs (qc_outs c) then [] else [1]) ++
-  (if list_eqb entry_eqb (db st) (qc_image c) then [] else [2]) ++
-  (if list_eqb wr_eqb (wlog (qc_max c) st0 (qc_hist c)) (qc_log c) then [] else [3]) ++
-  (if hash_keyedb (qc_tbl c) (qc_hist c) then [] else [4]).
+  (if list_eqb entry_eqb (db (core rst)) (qc_image c) then [] else [2]) ++
+  (if list_eqb wr_eqb (r_wlog (qc_max c) r_st0 (qc_hist c)) (qc_log c) then [] else [3]).
 
 Fixpoint mismatches_from (i : N) (cs : list qcase) : list (N * list N) :=
   match cs with
@@ -61,7 +58,3 @@ Fixpoint mismatches_from (i : N) (cs : list qcase) : list (N * list N) :=
               end
   end.
 Definition mismatches := mismatches_from 0.
-
-(* which cases are inside the guard of C10_fifo_partial *)
-Definition in_guard (c : qcase) : bool := fifo_guard (qc_max c) [] (qc_hist c).
-Definition count_in_guard (cs : list qcase) : N := N.of_nat (List.length (filter in_guard cs)).
